@@ -5,7 +5,7 @@ set -u
 sed -i "s#path = \"/repo\"#path = \"$VP_RUN_REPO\"#" sim/Cargo.toml
 export VERIF_DIR=$PWD VERIF_WORKERS=${SOAK_WORKERS:-6} VSIM_NO_AVX=1 VERIF_KEEP_ORIG=1
 (cd sim && cargo build --release --offline 2>&1 | tail -1)
-for s in 20260927 1; do
+for s in ${SOAK_SEEDS:-20260927 1}; do
  for p in C13 C05 C06 C07 C03 C04 C01 C02 C08 C09 C10 C11 C12 C14 C15 C16 C17 C18 C19 C20; do
    st=$(date +%s)
    out=$(VERIF_SEED=$s VERIF_MAX_SECS=${SOAK_SECS:-300} ./sim/target/release/vsim check $p --tier quick --runs 100000000 2>&1); rc=$?
